@@ -95,6 +95,15 @@ def _extra(core, top, mon, kw, fair=True, calibrate=False):
             if calibrate:
                 for th in (16, 20, 24, 28, 32, 36, 40):
                     cov("cal_head_age_ge_%d" % th, a >= th)
+    # (3a) every port: a data strobe belongs to an accepted command of that port (a strobe steered to another port leaves the
+    #      owner waiting for ever -- the finite-window face of "no accepted request is left without its data")
+    for i, p in enumerate(core.ports):
+        ow = Signal(6)
+        orr = Signal(6)
+        aw_ = p.cmd.valid & p.cmd.ready & p.cmd.we
+        ar_ = p.cmd.valid & p.cmd.ready & (p.cmd.we == 0)
+        top.sync += [ow.eq(ow + aw_ - p.wdata.ready), orr.eq(orr + ar_ - p.rdata.valid)]
+        bad("p%d_data_strobe_without_an_accepted_command_of_this_port" % i, (p.wdata.ready & (ow == 0)) | (p.rdata.valid & (orr == 0)))
     # (3) port level, generous closed forms
     for i, p in enumerate(core.ports):
         if fair and i != 0:
@@ -157,7 +166,12 @@ CONFIGS = {
     "fair_sdr_4b_2p_d2": (dict(phy="sdr_fast", bankbits=2, nports=2, timing=T_SMALL,
                                ctrl=dict(cmd_buffer_depth=2, read_time=4, write_time=4)), True, 0, 50, "t"),
 }
+STROBE_RE = "data_strobe_without_an_accepted_command"
 BENCHES = {n: partial(corebench.core_bench, n, c[0], None, True, partial(_extra, fair=c[1])) for n, c in CONFIGS.items()}
+# the strobe-ownership monitors count per port (SAT-hard at depth, like C01's): they run on their own shallow copy of two benches
+STROBE_BENCHES = {"strobes_fair_sdr_2b_2p_d1": "fair_sdr_2b_2p_d1", "strobes_adversarial_sdr_2b_2p_d2": "adversarial_sdr_2b_2p_d2"}
+for _a, _n in STROBE_BENCHES.items():
+    BENCHES[_a] = partial(corebench.core_bench, _a, CONFIGS[_n][0], None, True, partial(_extra, fair=CONFIGS[_n][1]))
 for _n in ("fair_sdr_2b_2p_d2_rt4", "fair_ddr3h_2b_2p_d2_tccd2"):
     BENCHES["calibrate_" + _n] = partial(corebench.core_bench, "calibrate_" + _n, CONFIGS[_n][0], None, True,
                                          partial(_extra, fair=True, calibrate=True))
@@ -174,9 +188,15 @@ def run(ctx):
         if ctx.only and not ctx.only.search(n):
             continue
         if ctx.tier == "quick" and "q" in tiers:
-            ctx.add(n, kq, timeout=1500)
+            ctx.add(n, kq, timeout=1500, skip_bads=STROBE_RE)
         elif ctx.tier == "thorough":
-            ctx.add(n, kt, timeout=1200, min_K=kq or 40, chunk=2)
+            ctx.add(n, kt, timeout=1200, min_K=kq or 40, chunk=2, skip_bads=STROBE_RE)
+    for a, n in STROBE_BENCHES.items():
+        if ctx.only and not ctx.only.search(a):
+            continue
+        ports = CONFIGS[n][0]["nports"]
+        ctx.add(a, 22 if ctx.tier == "quick" else 28, timeout=900, min_K=16, first_chunk=10, chunk=1, cover_required=False,
+                bads=["p%d_data_strobe_without_an_accepted_command_of_this_port" % i for i in range(ports)])
     ctx.run()
     for bn, r in ctx.bench_records.items():
         try:
@@ -186,7 +206,7 @@ def run(ctx):
 
 
 def bounds_of(bn):
-    c = CONFIGS[bn][0]
+    c = CONFIGS[STROBE_BENCHES.get(bn, bn)][0]
     from vlib import cfg
     core = cfg.make_core(**c)
     return bounds(core.timing_settings, core.phy_settings, core.ctrl_settings, 2**core.geom_settings.bankbits, len(core.ports))
